@@ -1,20 +1,33 @@
 """C03 - each element is constructed once and destroyed once; no leak or double destroy.
-Vector family part: the life events recorded with the Tracked element types (copy+move, move-only,
-copy-only) are judged by spec/LifeOps.tla inside VectorTrace.tla (deviation kinds life-*), the global
-constructed-minus-destroyed balance after the owners are gone (life-balance), and self-assignment /
-self-swap must leave the value unchanged (post deviations of calls with src = target)."""
+The life events recorded with the instrumented element types on the histories of every owning type are
+judged by spec/LifeOps.tla inside the module trace specifications (deviation kinds life-*): vector family
+(static_vector, inplace_vector, stack: Tracked copy+move / move-only / copy-only), optional / variant /
+expected (pipes.sum), inplace_function captures (pipes.callable), static_set / flat_set (pipes.set).
+Also: constructed-minus-destroyed balance once the owners are gone (life-balance), and self-assignment /
+self-swap must leave the value unchanged."""
+import vlib
 from pipes import vector
+
+SELF_OPS = ("copy_assign", "swap", "fswap", "assign_copy", "self_swap", "self_assign")
 
 
 def _mine(d):
     ev = d.get("ev", {})
     if d["kind"].startswith("life"):
         return True
-    return d["kind"] == "post" and ev.get("op") in ("copy_assign", "swap", "fswap") and ev.get("x", {}).get("src") == ev.get("o")
+    x = ev.get("x", {}) if isinstance(ev.get("x"), dict) else {}
+    return d["kind"] == "post" and ev.get("op") in SELF_OPS and x.get("src") == ev.get("o")
 
 
 def run(tier, rep):
-    vector.pipeline(tier, rep)
+    pipes = [("vector", vector.pipeline)]
+    for name in ("sum", "callable", "set"):
+        try:
+            mod = __import__("pipes." + name, fromlist=["pipeline"])
+            pipes.append((name, mod.pipeline))
+        except ImportError:
+            rep.notes.append("pipeline %s not available" % name)
+    vlib.run_pipelines(rep, pipes, tier)
     rep.devs = [d for d in rep.devs if _mine(d)]
     rep.assumptions += ["element lifetimes are observed through the special members of the harness' Tracked types",
                         "trivially-copyable elements are invisible to the monitor by definition",
